@@ -1,12 +1,13 @@
 #!/usr/bin/env python3
 """Copy confirmed seeded changes from the sub-agents' scratch areas into /verif/seeded/<id>/ (patch.diff, demo.py, meta.json).
-usage: keep_seeds.py <ID>-<k> ...   (reads /tmp/wt/<ID>/out/<k>/ incl. confirm.json written by confirm_seed.py)"""
+usage: keep_seeds.py <ID>-<k>[=<candidate dir>] ...   (default candidate dir /tmp/wt/<ID>/out/<k>/; reads its confirm.json written by confirm_seed.py)"""
 import json, os, shutil, sys
 VERIF = os.path.dirname( os.path.dirname( os.path.abspath( __file__ )))
 INITIAL = json.load( open( os.path.join( VERIF, 'seeded', 'initial_status.json' ))) if os.path.exists( os.path.join( VERIF, 'seeded', 'initial_status.json' )) else {}
 for label in sys.argv[1:]:
+    label, _, given = label.partition( '=' )
     pid, k = label.split( '-' )
-    src = '/tmp/wt/%s/out/%s' % ( pid, k )
+    src = given or '/tmp/wt/%s/out/%s' % ( pid, k )
     cf = json.load( open( os.path.join( src, 'confirm.json' )))
     ok = cf.get( 'demo_clean_rc' ) == 0 and cf.get( 'demo_patched_rc' ) not in ( 0, None ) and cf.get( 'compile_rc' ) == 0 and not cf.get( 'suite_stable_missing' ) and 'suite_stable_passed' in cf
     if not ok:
